@@ -307,4 +307,11 @@ def replay(key, model, info):
         bad = (gi == gj and i != j) or not (0 <= gi < N)
         return bad, f'pixel2index{tuple(i)}={gi}, pixel2index{tuple(j)}={gj}, N={N}'
     exp = expect(c)
+    if got in exp and kind and ('fits the index dtype' in kind or 'conversions fit' in kind):
+        # the machine-integer obligations range over BOTH traced evaluations (coordinates c and d): the model may overflow in the second
+        dd = [getf(f'd{k}') for k in range(nd)]
+        got2 = int(ls.pixel2index(*[jnp.asarray(v, dtype=jnp.float64) for v in dd]))
+        exp2 = expect(dd)
+        if got2 not in exp2:
+            return True, f'pixel2index{tuple(dd)} = {got2}, expected one of {sorted(exp2)} (strides {strides})'
     return (got not in exp), f'pixel2index{tuple(c)} = {got}, expected one of {sorted(exp)} (strides {strides})'
